@@ -122,7 +122,7 @@ def build(case, rnd):
         elif name in ("max_depth", "max_leaves"):
             kw[name] = None if v == "none" else int(v)
         elif name == "max_features":
-            kw[name] = None if v == "none" else d if v == "d" else int(v)
+            kw[name] = None if v == "none" else d if v == "d" else d + 2 if v == "d+2" else int(v)
         elif name in ("solver",):
             kw[name] = v
         else:
